@@ -496,9 +496,9 @@ def run_case(case):
 def summarise(agg, tier):
     q = tier == "quick"
     return {
-        "thresholds": {"encode_calls": 3000 if q else 80000, "cache_hits": 300 if q else 6000, "fresh_reencodings": 300 if q else 6000, "scale_only_results": 60 if q else 1200,
+        "thresholds": {"encode_calls": 2200 if q else 60000, "cache_hits": 300 if q else 6000, "fresh_reencodings": 300 if q else 6000, "scale_only_results": 60 if q else 1200,
                        "two_core_calls": 300 if q else 6000, "multi_slice_tensors": 150 if q else 3000, "campaign_multi_slice_tensors": 10 if q else 300,
-                       "scale_records_checked": 30000 if q else 800000, "weight_sections_decoded": 3000 if q else 60000, "weights_compared": 2000000 if q else 50000000,
+                       "scale_records_checked": 30000 if q else 800000, "weight_sections_decoded": 2200 if q else 45000, "weights_compared": 2000000 if q else 50000000,
                        "campaign_encode_calls": 1000 if q else 30000, "weight_dmas_checked": 200 if q else 6000, "buffered_weight_reads_checked": 200 if q else 6000},
         "rule": "direct drive: sequences of 14 encode requests per process on one accelerator (all six, two-core Ethos-U65-512 over-weighted) over conv / depthwise / fully-connected / "
                 "transpose-conv, int8 / uint8 / int16 IFM, per-tensor and per-channel scales, int32 / int64 biases incl. the 32/40-bit extremes, weight zero points (int, numpy scalar, array), "
